@@ -269,15 +269,12 @@ impl<'a> TimeZoneRef<'a> {
                         }
                     }
                     Ordering::Equal => {
-                        // should this ever happen? presumably we have to handle it anyway.
+                        // the offset does not change (only the abbreviation or the DST flag do):
+                        // every local time around this transition occurs exactly once
                         if local_leap_time < transition_start {
                             return Ok(crate::MappedLocalTime::Single(prev));
                         } else if local_leap_time == transition_end {
-                            if prev.ut_offset < after_ltt.ut_offset {
-                                return Ok(crate::MappedLocalTime::Ambiguous(prev, after_ltt));
-                            } else {
-                                return Ok(crate::MappedLocalTime::Ambiguous(after_ltt, prev));
-                            }
+                            return Ok(crate::MappedLocalTime::Single(after_ltt));
                         }
                     }
                     Ordering::Less => {
